@@ -37,6 +37,7 @@ SUITES = {
     'pfs384': {'child_dh': ('ecp384',)},
     'ike_dh_retry': {'dh_ike': ('ecp256', 'ecp384'), 'dh_ike_b': ('ecp384', 'ecp256')},
     'child_dh_retry': {'child_dh': ('ecp256', 'ecp384'), 'child_dh_b': ('ecp384', 'ecp256')},
+    'child_dh_retry_modp': {'child_dh': ('modp2048', 'modp3072'), 'child_dh_b': ('modp3072', 'modp2048')},
     'prf_change': 'prf_change',    # the two peers list the PRFs (and integrity algorithms) in opposite order: a rekey started by the former responder changes the PRF
     'narrow_r': 'narrow_r',        # tunnel mode; the responder's policy narrows its own subnet (/16 -> /24) and the port range
     'narrow_i': 'narrow_i',        # tunnel mode; the responder's policy narrows the initiator's subnet (/16 -> /28)
@@ -351,6 +352,23 @@ def do_cross(p, eng, checks, kinds, sa_a=None, sa_b=None, pfs=False):
             pump(ini, IE, *ends(p, who, a, b)[2:], out)
 
 
+def do_ike_collision(p, sa_a=None, sa_b=None):
+    """both ends start an IKE_SA rekey at the same moment: each refuses the other's request (TEMPORARY_FAILURE) and both carry on with the old IKE_SA"""
+    a, b = sa_a or p.a, sa_b or p.b
+    S = MODS['ikesa'].IkeSa.State
+    world.ENV.now = max(a.rekey_ike_sa_at, b.rekey_ike_sa_at) + 10
+    req_a = p.A.call(a.check_rekey_ike_sa_timer)
+    req_b = p.B.call(b.check_rekey_ike_sa_timer)
+    assert req_a is not None and req_b is not None
+    res_a = p.B.call(b.process_message, req_a)
+    res_b = p.A.call(a.process_message, req_b)
+    assert res_a is not None and res_b is not None
+    out_a = p.A.call(a.process_message, res_a)
+    out_b = p.B.call(b.process_message, res_b)
+    assert a.state == S.ESTABLISHED and b.state == S.ESTABLISHED and out_a is None and out_b is None, \
+        f'colliding IKE_SA rekeys: {a.state.name}/{b.state.name}'
+
+
 def do_rekey_ike(p, eng, checks, who, sa_a=None, sa_b=None):
     ini, IE, res, RE = ends(p, who, sa_a, sa_b)
     world.ENV.now = ini.rekey_ike_sa_at + 10
@@ -376,7 +394,7 @@ def h_scenario(suite, scenario, only_rfc=False):
     eng = core.engine()
     del NONCES[:]
     p = mk_pair(suite)
-    pfs = suite in ('pfs', 'pfs384', 'child_dh_retry')
+    pfs = suite in ('pfs', 'pfs384', 'child_dh_retry', 'child_dh_retry_modp')
     checks = []
     S = MODS['ikesa'].IkeSa.State
     try:
@@ -392,6 +410,8 @@ def h_scenario(suite, scenario, only_rfc=False):
                 do_new_child(p, eng, checks, who, sa_a, sa_b, pfs)
             elif kind == 'rekey':
                 do_rekey_child(p, eng, checks, who, sa_a, sa_b, pfs)
+            elif kind == 'ikecollide':
+                do_ike_collision(p, sa_a, sa_b)
             elif kind == 'cross':
                 do_cross(p, eng, checks, who.split('x'), sa_a, sa_b, pfs)
             elif kind == 'ike':
@@ -411,6 +431,7 @@ def h_scenario(suite, scenario, only_rfc=False):
     return ['scenario', len(checks)]
 
 
+AFTER_COLLISION = ('init+ikecollide@AB+new@A', 'init+ikecollide@AB+new@B', 'init+ikecollide@AB+rekey@A', 'init+ikecollide@AB+ike@B+new@A')
 SCENARIOS = ('init', 'init+new@A', 'init+new@B', 'init+rekey@A', 'init+rekey@B', 'init+ike@A+new@A+new@B', 'init+ike@B+rekey@B+new@A',
              'init+new@B+rekey@A', 'init+ike@A+ike@B+new@B', 'init+cross@newxnew', 'init+cross@rekeyxnew', 'init+new@B+cross@newxrekey')
 
@@ -431,6 +452,13 @@ def build_instances(tier):
             if suite == 'ike_dh_retry' and 'ike@' in sc:
                 # a responder answers an IKE_SA rekey whose KE group it does not like with INVALID_KE_PAYLOAD *and* ends the old IKE_SA, so the
                 # retry is never answered (observation recorded in DESIGN.md; no SAs are installed, hence nothing for C01 to compare)
+                continue
+            inst.append(Instance(f'{suite} {sc}', h_scenario, (suite, sc), native=nat(h_scenario), engine_kw={'max_ticks': 10 ** 7},
+                                 must_reach=[('completed', lambda o: o[0] == 'scenario' and len(o) == 2)]))
+    # state left behind by an IKE_SA rekey attempt that both ends refused (simultaneous rekey) must not leak into later negotiations
+    for suite in ('default', 'pfs', 'child_dh_retry', 'child_dh_retry_modp'):
+        for sc in AFTER_COLLISION:
+            if tier == 'quick' and suite in ('default', 'pfs') and sc != AFTER_COLLISION[0]:
                 continue
             inst.append(Instance(f'{suite} {sc}', h_scenario, (suite, sc), native=nat(h_scenario), engine_kw={'max_ticks': 10 ** 7},
                                  must_reach=[('completed', lambda o: o[0] == 'scenario' and len(o) == 2)]))
